@@ -23,9 +23,9 @@ CLAIMS = {
     'C06': dict(views=['center_of_gravity', 'correlation_trend_indicator', 'noise_elimination_technology', 'echo'], technique='Verus: loop invariants relating the real loops to recursive sums (Pearson computational form, Kendall pair sums, weighted sums)',
                 text='Proof that the three indicators equal their defining sums over the window.'),
     'C07': dict(views=['rsi', 'my_rsi', 'laguerre_rsi', 'hl_normalizer', 'noise_elimination_technology', 'binary_entropy', 'ehlers_fisher_transform', 'welford_online', 'welford_rolling',
-                       'drawdown', 'tanh', 'gte', 'lte', 'min', 'max', 'sma', 'center_of_gravity', 'echo'],
+                       'drawdown', 'tanh', 'gte', 'lte', 'min', 'max', 'sma', 'center_of_gravity', 'correlation_trend_indicator', 'vsct', 'alma', 'echo'],
                 technique='Verus: range postconditions / invariants on the real last()/update(), exact-arithmetic bounds',
-                text='Proof of the range clauses listed in the evidence; the clauses for CTI, Vsct, PFE, Alma-vs-Min/Max are not proved (see DESIGN.md) and are covered by the bounded search only.'),
+                text='Proof of the range clauses listed in the evidence (incl. CTI in [-1,1] by Cauchy-Schwarz, |Vsct| <= (N-1)/sqrt(N) by Samuelson, Min <= Sma/Alma <= Max); the PFE clause is a known finding and is covered by the bounded search only.'),
     'C08': dict(views=ALL, technique='Verus: readiness as a function of the abstract state, silent-inner frame, preconditions of / sqrt ln discharged from the guards in the code',
                 text='Proof that every partial operation is guarded (no NaN/inf in exact arithmetic), that readiness is monotone, and of the documented warm-up lengths.'),
     'C09': dict(views=['ema', 'laguerre_filter', 'super_smoother', 'roofing_filter', 'cyber_cycle', 'trend_flex', 're_flex', 'laguerre_rsi', 'ehlers_fisher_transform', 'echo'],
